@@ -133,7 +133,7 @@ let () =
     match sx with
     | [L [A "in"; A tr; _endpoint; backend; op];
        L [A "drv"; L [A "ep"; epp]; L (A "answers" :: answers); ext; L [A "tree"; tree]; L (A "dmeta" :: dm)];
-       L [A "obs"; L (A "calls" :: calls); out]] ->
+       L [A "obs"; L (A "calls" :: calls); out; L [A "stored"; stored]]] ->
       let o = op_of op in
       let is_local = (match backend with L (A "local" :: _) -> true | _ -> false) in
       bump ("op_" ^ op_name o);
@@ -152,8 +152,10 @@ let () =
        | Some out ->
          bump (match out with OErr _ -> "out_err" | _ -> "out_ok");
          if calls <> [] then note_nontrivial (show (List.hd sx));
+         let st = opt_str stored in
+         if st <> None then bump "create_read_back";
          let agree = model_agrees x fs ep o calls out in
-         let spec = spec_ok x fs ep o calls out in
+         let spec = spec_ok x fs ep o calls out && stored_ok o st in
          (* the local backend: its answers are those of the tree model, and a listing of a
             collection has the scope the property demands *)
          let agree, spec =
